@@ -129,6 +129,25 @@ class HZ(H):
             self.marks.append(len(self.log))
 
 
+class HKR(H):
+    """on_remove deletes the *other* entity (1 <-> 2) immediately and gives
+    its identifier to a fresh entity: callbacks may call back into the
+    world while an operation is under way."""
+    recreated = None
+    maker = None
+
+    def h_removed(self, entity, world):
+        super().h_removed(entity, world)
+        if entity not in (1, 2):
+            return
+        other = 3 - entity
+        if world.get_components(other):
+            world.delete_entity(other, immediate=True)
+        comp = self.maker('A')
+        world.create_entity(comp, entity_id=other)
+        self.recreated.append((other, comp))
+
+
 class HS(H):
     """One-shot: on_add detaches its own component again."""
     gone = None
@@ -175,7 +194,8 @@ class _Types(dict):
         return dict.__contains__(self, name)
 
 
-TYPES = _Types({c.__name__: c for c in (A, X, N, H, HB, HD, HZ, HS, P, OA)})
+TYPES = _Types({c.__name__: c for c in (A, X, N, H, HB, HD, HZ, HS, HKR, P,
+                                         OA)})
 
 
 class RecProc(desper.Processor):
@@ -273,6 +293,7 @@ class WorldDriver:
         ctx.effects = []     # (entity, row existed) of in-callback deletes
         ctx.redisabled = []  # log positions at which a callback disabled
         ctx.selfremoved = []  # (entity, component, returned) of one-shots
+        ctx.recreated = []    # (entity, fresh component) made by callbacks
         if self.processors:
             for klass in (RecProc, DelProc):
                 proc = klass(ctx.log)
@@ -323,6 +344,8 @@ class WorldDriver:
             comp.effects = ctx.effects
             comp.marks = ctx.redisabled
             comp.gone = ctx.selfremoved
+            comp.recreated = ctx.recreated
+            comp.maker = lambda t, ctx=ctx: self.new(ctx, t)
         ctx.comps.append(comp)
         return comp
 
@@ -334,13 +357,20 @@ class WorldDriver:
                 and sum(len(g) for g in ctx.postponed) >= self.max_postponed):
             return [('enable',)]
         ops = []
+        # at most one re-creating callback component at a time: two of them
+        # would delete each other's entity while its deletion is under way
+        killer = any('HKR' in row for row in ctx.rows.values())
         for shape in self.shapes:
+            if killer and 'HKR' in shape:
+                continue
             if ctx.autos < self.max_autos:
                 ops.append(('create', shape, None))
             for eid in self.explicit_ids:
                 ops.append(('create', shape, eid))
         for e in self.ids:
             for t in self.types:
+                if killer and t == 'HKR':
+                    continue
                 ops.append(('add', e, t))
         for e in self.ids:
             for t in self.types:
@@ -536,6 +566,8 @@ class WorldDriver:
                 self._drop_row(ctx, e, events)
             ctx.pending.clear()
             ctx.ghost.clear()
+            # callbacks of the collected entities ran before any processor
+            self._apply_recreated(ctx, events)
             if armed is not None:
                 # deletion requested during frame k: applied in frame k+1
                 ctx.hits['delete_from_inside_frame'] += 1
@@ -552,6 +584,11 @@ class WorldDriver:
             except Exception as exc:
                 self.fail('Q', 'op_raised', f'clear raised {exc!r}',
                           op='clear')
+            if ctx.recreated:
+                # a callback created an entity in the middle of clear():
+                # whether it survives depends on the order in which clear()
+                # walks the entities - not specified, not explored
+                raise Pruned('clear() while a callback creates entities')
             if ctx.redisabled:
                 # a callback disabled dispatching in the middle of clear():
                 # this is clear()-while-disabled, whose documented loss of
@@ -612,6 +649,7 @@ class WorldDriver:
                         ctx.ghost.add(e)
             events.append((comp, 'on_remove', e))
         del ctx.selfremoved[:]
+        self._apply_recreated(ctx, events)
         self._resolve_effects(ctx)
 
         if 'L' in self.own:
@@ -627,6 +665,18 @@ class WorldDriver:
             ctx.hits['ghost_id_reused'] += 1
             if not w.entity_exists(e):
                 ctx.pending.add(e)
+
+    def _apply_recreated(self, ctx, events):
+        for other, comp in ctx.recreated:
+            # a callback deleted entity `other` at once and re-created it
+            ctx.hits['callback_recreates_other_entity'] += 1
+            if other in ctx.rows:
+                if self._drop_row(ctx, other, events):
+                    ctx.hits['callback_deletes_pending_entity'] += 1
+            ctx.pending.discard(other)
+            ctx.ghost.discard(other)
+            self._attach(ctx, other, comp, events)
+        del ctx.recreated[:]
 
     @staticmethod
     def _resolve_effects(ctx):
